@@ -20,6 +20,7 @@ import (
 	"fmt"
 	"os"
 	"path/filepath"
+	"runtime"
 	"sync"
 	"sync/atomic"
 	"time"
@@ -51,6 +52,50 @@ type Event struct {
 	Reqs []Req  `json:"reqs,omitempty"`
 	N    int    `json:"n,omitempty"`  // storm: total number of requests
 	Par  int    `json:"par,omitempty"` // storm: goroutines
+	// gated: a directed schedule through the yield point limiter.after_inc (between quota.Inc and quota.Allowed)
+	Steps []Step `json:"steps,omitempty"`
+}
+
+// Step of a gated schedule: "inc" starts request I and parks it after its Inc; "allowed" lets it collect its
+// verdict and return; "go" runs a whole request un-gated; "adv" moves the clock while requests are parked.
+type Step struct {
+	Op   string `json:"op"`
+	I    int    `json:"i,omitempty"`
+	D    int64  `json:"d,omitempty"`
+	Q    string `json:"q,omitempty"`
+	G    string `json:"g,omitempty"`
+	Cost int64  `json:"cost,omitempty"`
+}
+
+type gate struct {
+	parked  chan struct{}
+	release chan struct{}
+}
+
+var (
+	gatesMu sync.Mutex
+	gates   = map[string]*gate{}
+)
+
+func gateSink(point string, kv ...any) {
+	if point != "limiter.after_inc" {
+		return
+	}
+	var req string
+	for i := 0; i+1 < len(kv); i += 2 {
+		if kv[i] == "req" {
+			req = fmt.Sprint(kv[i+1])
+		}
+	}
+	gatesMu.Lock()
+	g := gates[req]
+	delete(gates, req)
+	gatesMu.Unlock()
+	if g == nil {
+		return
+	}
+	close(g.parked)
+	<-g.release
 }
 
 type Script struct {
@@ -109,8 +154,14 @@ func main() {
 		if sc.Hooks {
 			hooks = vh.NewTrace()
 			hooks.Add(cfg)
+		}
+		{
 			verifhook.SetSink(func(point string, kv ...any) {
-				if point != "fw.inc" {
+				if point == "limiter.after_inc" {
+					gateSink(point, kv...)
+					return
+				}
+				if point != "fw.inc" || hooks == nil {
 					return
 				}
 				e := vh.Ev{"ev": point}
@@ -171,10 +222,73 @@ func main() {
 					}
 					close(start)
 					wg.Wait()
+				case "gated":
+					type run struct {
+						g    *gate
+						done chan struct{}
+					}
+					runs := map[int]*run{}
+					for _, st := range e.Steps {
+						switch st.Op {
+						case "adv":
+							now += st.D
+							eng.Clk.Set(at(now))
+							tr.Add(vh.Ev{"ev": "adv", "d": st.D})
+						case "go":
+							uid++
+							r := Req{st.Q, st.G, st.Cost}
+							b := tr.Stamp()
+							res := eng.Request(fmt.Sprintf("u%d", uid), "GET", "api.test/"+st.Q, sc.headers(r))
+							tr.AddAt(b, vh.Ev{"ev": "begin", "id": uid, "q": st.Q, "g": st.G, "cost": st.Cost, "out": outcome(res)})
+							tr.Add(vh.Ev{"ev": "end", "id": uid})
+						case "inc":
+							uid++
+							id := uid
+							req := fmt.Sprintf("p%d", id)
+							r := &run{g: &gate{parked: make(chan struct{}), release: make(chan struct{})}, done: make(chan struct{})}
+							runs[st.I] = r
+							gatesMu.Lock()
+							gates[req] = r.g
+							gatesMu.Unlock()
+							rq := Req{st.Q, st.G, st.Cost}
+							b := tr.Stamp()
+							go func() {
+								defer close(r.done)
+								res := eng.Request(req, "GET", "api.test/"+rq.Q, sc.headers(rq))
+								tr.AddAt(b, vh.Ev{"ev": "begin", "id": id, "q": rq.Q, "g": rq.G, "cost": rq.Cost, "out": outcome(res), "gated": true})
+								tr.Add(vh.Ev{"ev": "end", "id": id})
+							}()
+							select {
+							case <-r.g.parked:
+							case <-r.done:
+								vh.Die("gated: request %d returned without passing limiter.after_inc", st.I)
+							case <-time.After(30 * time.Second):
+								vh.Die("gated: request %d never reached limiter.after_inc", st.I)
+							}
+						case "allowed":
+							r := runs[st.I]
+							if r == nil {
+								vh.Die("gated: allowed before inc for %d", st.I)
+							}
+							close(r.g.release)
+							select {
+							case <-r.done:
+							case <-time.After(30 * time.Second):
+								vh.Die("gated: request %d did not return", st.I)
+							}
+							delete(runs, st.I)
+						default:
+							vh.Die("gated: unknown step %q", st.Op)
+						}
+					}
+					for _, r := range runs {
+						close(r.g.release)
+						<-r.done
+					}
 				case "storm":
 					// e.N identical requests issued by e.Par goroutines at one mock instant; one compact event
 					var wg sync.WaitGroup
-					var admitted, failed atomic.Int64
+					var admitted, failed, arrived atomic.Int64
 					start := make(chan struct{})
 					par := e.Par
 					if par < 1 {
@@ -190,6 +304,10 @@ func main() {
 						go func(gi, cnt int) {
 							defer wg.Done()
 							<-start
+							arrived.Add(1)
+							for spins := 0; arrived.Load() < int64(par) && spins < 1_000_000; spins++ {
+								runtime.Gosched() // all goroutines of the storm reach the real code together
+							}
 							for k := 0; k < cnt; k++ {
 								res := eng.Request(fmt.Sprintf("st%d-%d-%d", uid, gi, k), "GET", "api.test/"+e.Q, sc.headers(r))
 								switch outcome(res) {
